@@ -837,6 +837,13 @@ func (x *Exec) prepareCall(fr *frame, call *ssa.CallCommon) (fn Value, args []Va
 	} else {
 		recv := v.(Iface)
 		if recv.T == nil {
+			if p := call.Method.Pkg(); p != nil && x.eng.isBlackhole(p.Path()) {
+				// nil value of an interface type that belongs to a blackholed package
+				// (loggers, metrics): results of blackholed constructors are nil; calls are no-ops.
+				x.stubSeen["blackhole-iface:"+call.Method.FullName()] = true
+				sig := call.Method.Type().(*types.Signature)
+				return &NativeFunc{name: call.Method.FullName(), f: func(x *Exec, args []Value) Value { return zeroResults(sig) }}, nil
+			}
 			x.goPanicRuntime("invalid memory address or nil pointer dereference (method call on nil interface)")
 		}
 		if rt, ok := recv.V.(RType); ok && recv.T == rtypeMarker {
